@@ -2,6 +2,8 @@ use crate::core::Property;
 
 pub mod c01;
 pub mod c02;
+pub mod c04;
+pub mod c05;
 pub mod c09;
 pub mod c18;
 
@@ -9,6 +11,8 @@ pub fn all() -> Vec<Box<dyn Property>> {
     vec![
         Box::new(c01::C01),
         Box::new(c02::C02),
+        Box::new(c04::C04),
+        Box::new(c05::C05),
         Box::new(c09::C09),
         Box::new(c18::C18),
     ]
